@@ -7,14 +7,18 @@ from cloudsync.providers.mock import MockProvider
 from cloudsync import DIRECTORY, FILE
 
 PROP = "C19"
-PATHS = ["/a", "/b", "/a/a", "/a/b", "/b/a"]
+PATHS = ["/a", "/b", "/a/a", "/a/b", "/b/a", "/a/a/a"]
 OIDS = [1, 2, 3]
 TYPES = {"F": FILE, "D": DIRECTORY}
 ABSENT = "absent"
 
 
 def configs(tier):
-    c = [{"name": "cs", "cs": True}, {"name": "ci", "cs": False}]
+    c = [{"name": "cs", "cs": True}, {"name": "ci", "cs": False},
+         # the same search started from a populated cache (folder with an id holding an id-less child, a root-level entry
+         # with the child's name): states the empty-cache search only reaches one level deeper
+         {"name": "cs_pre", "cs": True, "pre": [["mkdir", "/a", 1], ["create", "/a/b", None], ["create", "/b", 2]]},
+         {"name": "ci_pre", "cs": False, "pre": [["mkdir", "/a", 1], ["create", "/A/b", None], ["create", "/b", 2]]}]
     return c
 
 
@@ -152,7 +156,10 @@ class State:
 
 
 def make(cfg):
-    return State(cfg)
+    st = State(cfg)
+    for op in cfg.get("pre") or []:
+        apply(st, op, False)
+    return st
 
 
 def close(st):
